@@ -87,6 +87,15 @@ func (p *profile) ParseRef(rawUrl, ref string) (*url.Url, error) {
 
 func (p *profile) Canonicalize(u *url.Url) (*url.Url, error) {
 	if p.repeatedPercentDecoding {
+		// Credentials and port have to go before the host is rewritten: the hostname setter refuses to empty the
+		// host while they are present, so the result depended on whether they had been removed by an earlier pass.
+		if p.removePort {
+			u.SetPort("")
+		}
+		if p.removeUserInfo {
+			u.SetUsername("")
+			u.SetPassword("")
+		}
 		if u.Hostname() != "" {
 			u.SetHostname(decodeEncode(u.Hostname(), url.HostPercentEncodeSet))
 		}
